@@ -14,6 +14,8 @@
 //	types <path> <format> <f|n> <seed> <mod> <dir> <max> TAB  cases=<n> …    (type-string substitution, see worker.go)
 //	runs <path> <format> <f|n> <seed> <mod> <lens> <max>  TAB  cases=<n> …    (long runs, see worker.go)
 //	fields <path> <format> <f|n> <seed> <mod> <max> <pats> TAB  cases=<n> …    (field-aware saturation, see worker.go)
+//	near <path> <format> <f|n> <seed> <mod> <max>        TAB  cases=<n> …    (directed search: bytes the decoder read, see sites.go)
+//	dprog <format> <f|n> <hex>                           TAB  <class> <leaves>  (DProg correspondence, see dprog.go)
 //	d|i <path> <mut> <format> <f|n>                     TAB  <obs>          (every panic / resource case, every `i` case, replays)
 //	core <prim> <arg> <buf bytes> <pos bits> <f|n>      TAB  ok | err:io | err:decoder | panic:… | resource:…
 //
@@ -194,6 +196,7 @@ type job struct {
 	text string
 	size int // base size, for scheduling
 	cross  bool   // a cross-format job (a foreign format on one of the 40 small files)
+	directed bool // a job of the directed search (sites.go)
 	format string
 	// results
 	lines    [][2]string // op, obs
@@ -226,7 +229,7 @@ type tierParams struct {
 	fieldsUnit  int // bytes of file size per unit of the fields sampling modulus
 }
 
-func genJobs(r *hlib.Rand, seed uint64, tp tierParams, o *hlib.Out, workDir string) []*job {
+func genJobs(r *hlib.Rand, seed uint64, tp tierParams, o *hlib.Out, workDir string, sitesCh chan sitesResult) []*job {
 	files := listCorpus()
 	o.Stat("corpus_files_total", len(files))
 	byDir := map[string][]int{}
@@ -413,6 +416,45 @@ func genJobs(r *hlib.Rand, seed uint64, tp tierParams, o *hlib.Out, workDir stri
 	}
 	o.Stat("cross_format_files", nSmall)
 	o.Stat("formats_registered", len(names))
+	// regenerated fault-site table against the committed baseline: directed search for the formats of changed packages
+	if sitesCh != nil {
+		res := <-sitesCh
+		if res.err != nil {
+			fmt.Fprintf(os.Stderr, "c06: site extractor failed: %v\n", res.err)
+			o.Case("sites extractor", "badcase:site-extractor-failed")
+		} else {
+			nsites, free := 0, 0
+			for _, r := range res.rows {
+				nsites += r.Own
+				if r.Total == 0 {
+					free += len(r.Formats)
+				}
+			}
+			o.Stat("sites_packages", len(res.rows))
+			o.Stat("sites_total", nsites)
+			o.Stat("sites_free_formats", free)
+			changed, err := changedSitePackages(res.rows)
+			if err != nil {
+				fmt.Fprintf(os.Stderr, "c06: site baseline: %v\n", err)
+				o.Case("sites baseline", "badcase:site-baseline-unreadable")
+			}
+			var fmts, pk []string
+			for _, c := range changed {
+				fmts = append(fmts, c.Formats...)
+				pk = append(pk, c.Pkg)
+				o.Stat("sites_changed:"+c.Pkg, 1)
+			}
+			o.Stat("sites_changed_packages", len(changed))
+			o.Stat("directed_formats", len(fmts))
+			if len(changed) > 0 {
+				fmt.Fprintf(os.Stderr, "c06: site table changed for %v: directed search on %v\n", pk, fmts)
+				o.Sample("sites_changed: " + strings.Join(pk, ",") + " => directed search on " + strings.Join(fmts, ","))
+				dj := directedJobs(files, fmts, seed, tp, o)
+				o.Stat("directed_jobs", len(dj))
+				jobs = append(jobs, dj...)
+			}
+		}
+	}
 	sort.SliceStable(jobs, func(a, b int) bool { return jobs[a].size > jobs[b].size })
 	return jobs
 }
@@ -470,6 +512,9 @@ func emit(o *hlib.Out, jobs []*job) {
 				obs, kind, _ := strings.Cut(k, "@")
 				c := classOf(obs)
 				o.Stat("decodes", j.hist[k])
+				if j.directed {
+					o.Stat("directed_decodes", j.hist[k])
+				}
 				o.Stat("class_"+c, j.hist[k])
 				o.Stat("kind_"+kind, j.hist[k])
 				if kind != "id" {
@@ -501,6 +546,9 @@ func emit(o *hlib.Out, jobs []*job) {
 				o.Stat("interp_class_"+c, 1)
 			default:
 				o.Stat("decodes", 1)
+				if j.directed {
+					o.Stat("directed_decodes", 1)
+				}
 				o.Stat("class_"+c, 1)
 			}
 			if ws := strings.Fields(op); len(ws) == 5 && (ws[0] == "d" || ws[0] == "i") && ws[2] != "id" {
@@ -534,6 +582,8 @@ func main() {
 	worker := flag.Bool("worker", false, "internal: worker process")
 	count := flag.Bool("count", false, "print the size of the family per tier and exit")
 	only := flag.String("only", "", "developer: restrict bulk jobs to paths containing this")
+	updBase := flag.Bool("update-sites-baseline", false, "write corpus/C06/sites_baseline.json from the repository's current site table and exit")
+	dprogOnly := flag.Bool("dprog-only", false, "developer: only the DProg correspondence run")
 	emitOp := flag.String("emit", "", "write the input bytes of a `d <path> <mut> <format> <f|n>` op to -emit-to and exit")
 	emitTo := flag.String("emit-to", "", "output file of -emit")
 	cfg := hlib.ParseFlags()
@@ -563,6 +613,18 @@ func main() {
 		}
 		return
 	}
+	if *updBase {
+		res := <-startSitesExtractor()
+		if res.err == nil {
+			res.err = writeSitesBaseline(res.rows)
+		}
+		if res.err != nil {
+			fmt.Fprintln(os.Stderr, res.err)
+			os.Exit(2)
+		}
+		fmt.Println("wrote", baselinePath())
+		return
+	}
 	o := hlib.NewOut(cfg.Out)
 	defer o.Close()
 	workDir := os.Getenv("VERIF_WORK")
@@ -573,6 +635,14 @@ func main() {
 	var jobs []*job
 	if cfg.Replay != "" {
 		for _, l := range hlib.ReplayLines(cfg.Replay) {
+			if strings.HasPrefix(l, "dprog ") { // DProg correspondence cases run in this process (dprog.go)
+				obs, ok := runDprogOp(l)
+				if !ok {
+					obs = "badcase:parse"
+				}
+				emitDprog(o, l, obs, true)
+				continue
+			}
 			jobs = append(jobs, &job{text: l})
 		}
 	} else {
@@ -595,7 +665,17 @@ func main() {
 		for _, c := range coreCases() {
 			jobs = append(jobs, &job{text: c})
 		}
-		bulk := genJobs(hlib.NewRand(cfg.Seed), cfg.Seed, tp, o, workDir)
+		if !*count {
+			dprogRun(o, cfg.Seed, cfg.Thorough())
+		}
+		if *dprogOnly {
+			return
+		}
+		var sitesCh chan sitesResult
+		if !*count && os.Getenv("VERIF_C06_NOSITES") == "" {
+			sitesCh = startSitesExtractor()
+		}
+		bulk := genJobs(hlib.NewRand(cfg.Seed), cfg.Seed, tp, o, workDir, sitesCh)
 		if *only != "" {
 			var keep []*job
 			for _, j := range bulk {
